@@ -1,0 +1,161 @@
+/*
+ * Atree - Scalable Arrays and Ordered Maps
+ *
+ * Copyright Flow Foundation
+ *
+ * Licensed under the Apache License, Version 2.0 (the "License");
+ * you may not use this file except in compliance with the License.
+ * You may obtain a copy of the License at
+ *
+ *   http://www.apache.org/licenses/LICENSE-2.0
+ *
+ * Unless required by applicable law or agreed to in writing, software
+ * distributed under the License is distributed on an "AS IS" BASIS,
+ * WITHOUT WARRANTIES OR CONDITIONS OF ANY KIND, either express or implied.
+ * See the License for the specific language governing permissions and
+ * limitations under the License.
+ */
+
+//go:build verif
+
+package atree
+
+//@ # ---------------------------------------------------------------- storage.go : PersistentSlabStorage as a write-back overlay
+//@ # Ledger mirror (ghost): ledgerHas / ledgerVal change only by the assumed contracts of BaseStorage.Store / Remove on success.
+//@ # wlen / wlogID / wlogOp: ordered log of successful register operations (op 1 = store, 2 = remove).
+
+//@ ghost ledgerHas : set[SlabID]
+//@ ghost ledgerVal : map[SlabID][]byte
+//@ ghost wlen : int
+//@ ghost wlogID : map[int]SlabID
+//@ ghost wlogOp : map[int]int
+//@ ghost enc : fn(s Slab) []byte
+//@ ghost dec : fn(id SlabID, data []byte) ref
+
+//@ axiom forall id SlabID, s Slab :: s != nil ==> dec(id, enc(s)) == s
+//@       because "A8: decoding the register a slab was encoded into yields that slab (slab objects are identified with their content; the round trip itself is C07)"
+
+//@ iface BaseStorage.Store(id, data) (err)
+//@   ensures err == nil ==> ledgerHas == add(old(ledgerHas), id) && ledgerVal == upd(old(ledgerVal), id, data) &&
+//@        wlen == old(wlen) + 1 && wlogID == upd(old(wlogID), old(wlen), id) && wlogOp == upd(old(wlogOp), old(wlen), 1)
+//@   ensures err != nil ==> ledgerHas == old(ledgerHas) && ledgerVal == old(ledgerVal) && wlen == old(wlen) && wlogID == old(wlogID) && wlogOp == old(wlogOp)
+//@   modifies ghost.ledgerHas, ghost.ledgerVal, ghost.wlen, ghost.wlogID, ghost.wlogOp
+
+//@ iface BaseStorage.Remove(id) (err)
+//@   ensures err == nil ==> ledgerHas == del(old(ledgerHas), id) && ledgerVal == old(ledgerVal) &&
+//@        wlen == old(wlen) + 1 && wlogID == upd(old(wlogID), old(wlen), id) && wlogOp == upd(old(wlogOp), old(wlen), 2)
+//@   ensures err != nil ==> ledgerHas == old(ledgerHas) && ledgerVal == old(ledgerVal) && wlen == old(wlen) && wlogID == old(wlogID) && wlogOp == old(wlogOp)
+//@   modifies ghost.ledgerHas, ghost.ledgerVal, ghost.wlen, ghost.wlogID, ghost.wlogOp
+
+//@ iface BaseStorage.Retrieve(id) (data, ok, err)
+//@   ensures err == nil ==> ok == has(ledgerHas, id) && (ok ==> data == ledgerVal[id])
+//@   pure
+
+//@ iface BaseStorage.GenerateSlabID(address) (id, err)
+//@   ensures err == nil ==> id.address == address
+//@   pure
+
+//@ iface BaseStorage.SegmentCounts() (n)
+//@   pure
+
+//@ extern EncodeSlab(slab, encMode) (data, err)
+//@   ensures err == nil ==> data == enc(slab) && data != nil
+//@   ensures err != nil ==> categorised(err)
+//@   pure
+
+//@ extern DecodeSlab(id, data, decMode, decodeStorable, decodeTypeInfo) (slab, err)
+//@   ensures err == nil ==> slab == dec(id, data) && slab != nil
+//@   ensures err != nil ==> categorised(err)
+//@   pure
+
+//@ pred view(s *PersistentSlabStorage, id SlabID) = ite(has(s.deltas, id), s.deltas[id],
+//@      ite(has(s.cache, id), s.cache[id], ite(has(ledgerHas, id), dec(id, ledgerVal[id]), nil)))
+
+//@ pred invCoh(s *PersistentSlabStorage) = forall id SlabID :: has(s.cache, id) && !has(s.deltas, id) ==>
+//@      ite(s.cache[id] == nil, !has(ledgerHas, id), has(ledgerHas, id) && s.cache[id] == dec(id, ledgerVal[id]))
+
+//@ pred sameLedger() = ledgerHas == old(ledgerHas) && ledgerVal == old(ledgerVal) && wlen == old(wlen) && wlogID == old(wlogID) && wlogOp == old(wlogOp)
+
+//@ func (s *PersistentSlabStorage) Store(id, slab) (err)  serves C03 C15 C18
+//@   ensures[C18] id == SlabIDUndefined ==> err != nil && isFatal(err) && s.deltas == old(s.deltas)
+//@   ensures[C15] id != SlabIDUndefined ==> err == nil && s.deltas == upd(old(s.deltas), id, slab)
+//@   ensures[C15] id != SlabIDUndefined ==> view(s, id) == slab && (forall j SlabID :: j != id ==> view(s, j) == old(view(s, j)))
+//@   ensures[C03] sameLedger() && s.cache == old(s.cache)
+//@   modifies s.deltas, alloc
+
+//@ func (s *PersistentSlabStorage) Remove(id) (err)  serves C03 C15 C18
+//@   ensures[C18] id == SlabIDUndefined ==> err != nil && isFatal(err) && s.deltas == old(s.deltas)
+//@   ensures[C15] id != SlabIDUndefined ==> err == nil && s.deltas == upd(old(s.deltas), id, nil)
+//@   ensures[C15] id != SlabIDUndefined ==> view(s, id) == nil && (forall j SlabID :: j != id ==> view(s, j) == old(view(s, j)))
+//@   ensures[C03] sameLedger() && s.cache == old(s.cache)
+//@   modifies s.deltas, alloc
+
+//@ func (s *PersistentSlabStorage) RetrieveIgnoringDeltas(id, cache) (slab, found, err)  serves C03 C08 C15
+//@   requires invCoh(s) && s.baseStorage != nil
+//@   ensures[C15] err == nil ==> found == (slab != nil) &&
+//@        slab == old(ite(has(s.cache, id), s.cache[id], ite(has(ledgerHas, id), dec(id, ledgerVal[id]), nil)))
+//@   ensures[C08] forall j SlabID :: view(s, j) == old(view(s, j))
+//@   ensures[C08] invCoh(s) && s.deltas == old(s.deltas) && (!cache ==> s.cache == old(s.cache))
+//@   ensures[C03] sameLedger()
+//@   ensures err != nil ==> categorised(err)
+//@   modifies s.cache, alloc
+
+//@ func (s *PersistentSlabStorage) Retrieve(id) (slab, found, err)  serves C03 C08 C15
+//@   requires invCoh(s) && s.baseStorage != nil
+//@   ensures[C15] err == nil ==> slab == old(view(s, id)) && found == (slab != nil)
+//@   ensures[C08] forall j SlabID :: view(s, j) == old(view(s, j))
+//@   ensures[C08] invCoh(s) && s.deltas == old(s.deltas)
+//@   ensures[C03] sameLedger()
+//@   ensures err != nil ==> categorised(err)
+//@   modifies s.cache, alloc
+
+//@ func (s *PersistentSlabStorage) RetrieveIfLoaded(id) (slab)  serves C08 C15
+//@   ensures slab == ite(has(s.deltas, id), s.deltas[id], ite(has(s.cache, id), s.cache[id], nil))
+//@   ensures invCoh(s) ==> slab == nil || slab == view(s, id)
+//@   pure
+
+//@ func (s *PersistentSlabStorage) DropDeltas()  serves C15
+//@   ensures len(s.deltas) == 0 && (forall j SlabID :: !has(s.deltas, j)) && s.cache == old(s.cache) && sameLedger()
+//@   modifies s.deltas
+
+//@ func (s *PersistentSlabStorage) DropCache()  serves C08 C15
+//@   ensures len(s.cache) == 0 && (forall j SlabID :: !has(s.cache, j)) && s.deltas == old(s.deltas) && sameLedger()
+//@   ensures[C08] old(invCoh(s)) ==> (forall j SlabID :: view(s, j) == old(view(s, j)))
+//@   ensures invCoh(s)
+//@   modifies s.cache
+
+//@ func (s *PersistentSlabStorage) Deltas() (n)  serves C15
+//@   ensures n == len(s.deltas)
+//@   pure
+
+//@ func (s *PersistentSlabStorage) HasUnsavedChanges(address) (r)  serves C15
+//@   ensures r == (exists j SlabID :: has(s.deltas, j) && j.address == address)
+//@   pure
+//@   loop 1: invariant forall j SlabID :: has(seen, j) ==> j.address != address
+
+//@ # ---- commit (C03 C04 C14 C15)
+
+//@ pred distinctKeys(keys []SlabID) = forall i, j :: 0 <= i && i < j && j < len(keys) ==> keys[i] != keys[j]
+
+//@ pred done(s *PersistentSlabStorage, id SlabID) = !has(s.deltas, id) && has(s.cache, id) && s.cache[id] == old(s.deltas[id]) &&
+//@      ite(old(s.deltas[id]) == nil, !has(ledgerHas, id), has(ledgerHas, id) && ledgerVal[id] == enc(old(s.deltas[id])))
+
+//@ pred untouched(s *PersistentSlabStorage, id SlabID) = has(s.deltas, id) == old(has(s.deltas, id)) && s.deltas[id] == old(s.deltas[id]) &&
+//@      has(s.cache, id) == old(has(s.cache, id)) && s.cache[id] == old(s.cache[id]) &&
+//@      has(ledgerHas, id) == old(has(ledgerHas, id)) && ledgerVal[id] == old(ledgerVal[id])
+
+//@ pred committedPrefix(s *PersistentSlabStorage, keys []SlabID, p int) = 0 <= p && p <= len(keys) &&
+//@      (forall k :: 0 <= k && k < p ==> done(s, keys[k])) &&
+//@      (forall id SlabID :: (forall k :: 0 <= k && k < p ==> keys[k] != id) ==> untouched(s, id)) &&
+//@      wlen == old(wlen) + p && (forall k :: 0 <= k && k < p ==> wlogID[old(wlen) + k] == keys[k]) &&
+//@      (forall k :: 0 <= k && k < old(wlen) ==> wlogID[k] == old(wlogID[k]))
+
+//@ func (s *PersistentSlabStorage) commit(keys) (err)  serves C03 C04 C14 C15
+//@   requires invCoh(s) && s.baseStorage != nil && distinctKeys(keys)
+//@   requires forall k :: 0 <= k && k < len(keys) ==> has(s.deltas, keys[k])
+//@   ensures[C14] forall j SlabID :: view(s, j) == old(view(s, j))
+//@   ensures[C14] exists p :: committedPrefix(s, keys, p) && (err == nil ==> p == len(keys))
+//@   ensures[C15] invCoh(s)
+//@   ensures[C14] err != nil ==> categorised(err)
+//@   modifies s.cache, s.deltas, ghost.ledgerHas, ghost.ledgerVal, ghost.wlen, ghost.wlogID, ghost.wlogOp, alloc
+//@   loop 1: invariant committedPrefix(s, keys, i) && invCoh(s) && (forall j SlabID :: view(s, j) == old(view(s, j)))
